@@ -321,6 +321,12 @@ def boundary_cases():
                 add(mn, mx, [P] * k + [("A", 0, mode, j) for j in (k - 1,)] + [N0] * (2 * k + 2))
                 add(mn, mx, [P] * 6 + [("A", 0, mode, k), P, N0, N0, N0, N0])
                 add(mn, mx, [S0, ("B", k), N0, N0, ("B", k), ("S", 1, mode)] + [N0, N1] * (2 * k + 2))
+        # two readers tied on the oldest retained item, two or more items behind (a moved-out element would be seen by
+        # the second one): a subscriber and its copy, two subscribers created together, a late subscriber at a position
+        for mn in (1, 2):
+            add(mn, 0, [S0, P, P, P, ("Y", 1, 0), N0, N0, N1, N1, N0, N0, N1, N1])
+            add(mn, 0, [S0, ("S", 1, mode), ("B", 3), N0, N0, N1, N1, N1, N1, N0, N0])
+            add(mn, 0, [S0, P, P, P, ("A", 1, mode, 3), N1, N1, N0, N0, N0, N0, N1, N1])
         # copy: independent continuation, slot reuse through the free list
         add(1, 0, [S0, P, P, N0, N0, ("Y", 1, 0), N0, N0, N1, N1, N1, N1, P, N0, N1, N0, N1])
         add(1, 0, [S0, P, N0, ("Y", 1, 0), N0, N1, N1])
@@ -477,18 +483,20 @@ def nontrivial_seq(case, model_obs):
 
 
 # ---------------------------------------------------------------- threaded engine (pubt)
-def thr_case(name, mn, mx, subs, prog, sched):
-    """subs: [(mode, style, count)], prog: publisher program (wire ops), sched: choices"""
+def thr_case(name, mn, mx, subs, prog, sched, prog_b=()):
+    """subs: [(mode, style, count[, action])], prog / prog_b: the two publisher programs (wire ops), sched: choices"""
     line = [100]
-    for m, st, c in subs: line += [m, st, c]
-    return Case("pubt", name, [[mn, mx], line] + [list(o) for o in prog] + [[102] + list(sched)])
+    for t in subs: line += [t[0], t[1], t[2], t[3] if len(t) > 3 else 0]
+    return Case("pubt", name, [[mn, mx], line] + [list(o) for o in prog] + [[103] + list(o) for o in prog_b]
+                + [[102] + list(sched)])
 
 
 def gen_thr_random(rng, name):
     mn = rng.choice([1, 1, 2, 3]); mx = rng.choice([0, 0, mn, mn + 1])
     nsubs = rng.choice([1, 2, 2, 3])
     modes = rng.choice([[0], [0], [0, 1, 2], [1], [2]])
-    subs = [(rng.choice(modes), rng.choice([0, 0, 1, 1, 2]), rng.choice([1, 2, 3, 4])) for _ in range(nsubs)]
+    acts = rng.choice([[0], [0], [0, 0, 1, 2], [0, 1, 2, 3, 4, 5], [1], [2]])
+    subs = [(rng.choice(modes), rng.choice([0, 0, 1, 1, 1, 2]), rng.choice([1, 2, 3, 4]), rng.choice(acts)) for _ in range(nsubs)]
     prog, val, ncopy = [], 100, 0
     for _ in range(rng.randint(2, 8)):
         r = rng.random()
@@ -503,8 +511,16 @@ def gen_thr_random(rng, name):
         else: prog.append(rng.choice([[5, 0], [13], [2, 7, 0], [0]]))   # not executed by the publisher thread: skipped
     prog.append(rng.choice([[10], [10], [12]]))
     if rng.random() < 0.2: prog.append(rng.choice([[0, val], [10], [8, 0], [12]]))
+    prog_b = []
+    if rng.random() < 0.3:
+        for _ in range(rng.randint(1, 4)):
+            r = rng.random()
+            if r < 0.6: prog_b.append([0, val]); val += 1
+            elif r < 0.75: prog_b.append([1, val, val + 1]); val += 2
+            elif r < 0.85: prog_b.append([8, rng.randrange(nsubs)])
+            else: prog_b.append([10])
     sched = [rng.randrange(6) for _ in range(rng.choice([20, 40, 70]))]
-    return thr_case(name, mn, mx, subs, prog, sched)
+    return thr_case(name, mn, mx, subs, prog, sched, prog_b)
 
 
 def thr_exhaustive(tag, mn, mx, subs, prog, depth):
@@ -526,11 +542,26 @@ def gen_thr(seed, tier):
                          [[4, 5, 0], [0, 100], [1, 101, 102], [12]], [[0, 100], [9, 0], [0, 101], [10]]):
                 for sched in ([1] * 6 + [0] * 30, [1, 2] * 4 + [0] * 30, [0] * 40, [2, 1, 0] * 12):
                     cases.append(thr_case("tb%d" % b, 1, 0, [(mode, style, 3), (mode, 1 - style, 2)], prog, sched)); b += 1
+    # re-entrant subscribers: two or three parked coroutines, the first resumed one publishes / closes / kicks / destroys
+    # itself inside the waker's wake-up loop; and two publisher threads on one publisher
+    for mode in (0, 2):
+        for act in (1, 2, 3, 4, 5):
+            for others in ([(mode, 1, 3, 0)], [(mode, 1, 3, 0), (mode, 0, 3, 0)], [(mode, 0, 3, 0), (mode, 1, 3, 0)]):
+                for first in (0, 1):
+                    subs = [(mode, 1, 3, act)] + others if first == 0 else others + [(mode, 1, 3, act)]
+                    for prog in ([[0, 100], [0, 101], [10]], [[1, 100, 101], [12]], [[10]]):
+                        for sched in ([1, 2, 3] * 4 + [0] * 40, [3, 2, 1] * 4 + [0] * 40, [1, 1, 2, 2, 3, 3] * 2 + [0, 1] * 20):
+                            cases.append(thr_case("tr%d" % b, 1, 0, subs, prog, sched)); b += 1
+    for sched in ([1, 2] * 4 + [0, 2] * 20, [1, 2] * 4 + [2, 0] * 20, [1, 1, 2, 2, 0, 3, 0, 3, 1, 2] * 4):
+        for style in (0, 1):
+            cases.append(thr_case("tp%d" % b, 1, 0, [(0, 1, 4, 0), (0, style, 4, 0)], [[0, 100], [0, 101], [10]],
+                                  sched, [[0, 200], [0, 201]])); b += 1
     n = 400 if tier == "quick" else 6000
     for i in range(n):
         cases.append(gen_thr_random(rng, "tg%d" % i))
     if tier == "quick":
         cases += thr_exhaustive("tx", 1, 0, [(0, 0, 2), (0, 1, 2)], [[0, 100], [0, 101], [10]], 6)
+        cases += thr_exhaustive("tz", 1, 0, [(0, 1, 2, 1), (0, 1, 2, 0)], [[0, 100], [10]], 6)
         cases += thr_exhaustive("ty", 1, 1, [(2, 1, 2), (1, 0, 2)], [[0, 100], [1, 101, 102], [12]], 6)
     else:
         for k, (mn, mx, subs, prog) in enumerate([
@@ -538,11 +569,14 @@ def gen_thr(seed, tier):
                 (1, 1, [(2, 1, 2), (1, 0, 2)], [[0, 100], [1, 101, 102], [12]]),
                 (1, 1, [(0, 1, 3), (0, 2, 3)], [[0, 100], [0, 101], [0, 102], [10]]),
                 (1, 0, [(0, 1, 2), (0, 1, 2)], [[0, 100], [8, 0], [0, 101], [12]]),
-                (2, 2, [(1, 0, 2), (2, 2, 3)], [[1, 100, 101], [0, 102], [10]])]):
-            cases += thr_exhaustive("tx%d" % k, mn, mx, subs, prog, 9)
-    cases.append(Case("pubt", "tbad0", [[1, 0], [100, 0, 0], [102]]))
-    cases.append(Case("pubt", "tbad1", [[1, 0], [100, 0, 3, 1], [0, 1], [102, 0]]))
-    cases.append(Case("pubt", "tbad2", [[1, 0], [100, 0, 0, 1], [0, 1]]))
+                (2, 2, [(1, 0, 2), (2, 2, 3)], [[1, 100, 101], [0, 102], [10]]),
+                (1, 0, [(0, 1, 2, 1), (0, 1, 2, 0)], [[0, 100], [10]]),
+                (1, 0, [(0, 1, 2, 2), (0, 1, 2, 0), (0, 0, 2, 0)], [[0, 100], [0, 101], [10]])]):
+            cases += thr_exhaustive("tx%d" % k, mn, mx, subs, prog, 9 if len(subs) <= 2 else 7)
+    cases.append(Case("pubt", "tbad0", [[1, 0], [100, 0, 0, 1], [102]]))
+    cases.append(Case("pubt", "tbad1", [[1, 0], [100, 0, 3, 1, 0], [0, 1], [102, 0]]))
+    cases.append(Case("pubt", "tbad2", [[1, 0], [100, 0, 0, 1, 0], [0, 1]]))
+    cases.append(Case("pubt", "tbad3", [[1, 0], [100, 0, 0, 1, 6], [0, 1], [102, 0]]))
     return cases
 
 
@@ -562,12 +596,12 @@ def nontrivial_thr(case, model_obs):
         a = l.split()
         if len(a) < 7 or a[3] != "0": continue
         tid, code, arg = a[0], a[1], a[2]
-        if code == "200" and len(a) > 7: woke = True
+        if code in ("200", "203", "205") and len(a) > 7: woke = True
         if code == "5": inflight[arg] = True
         elif code == "7":
             inflight.pop(arg, None)
             if a[4] == "1": delivered = True
-        if code in ("200", "5", "6", "7") and any(k != arg or code == "200" for k in inflight): inter = True
+        if code in ("200", "203", "205", "5", "6", "7") and any(k != arg or code in ("200", "203", "205") for k in inflight): inter = True
     return delivered and (woke or inter)
 
 
